@@ -1553,6 +1553,11 @@ pub fn explore(sc: &Scenario, bound: usize, max_exec: u64, threads: usize) -> Ex
                         // a signal verdict that needs no deviation at all is a different finding from
                         // one that needs a particular race: the recorded ones all need deviations
                         let sg = if base_schedule && sg.starts_with("C10:sim:signal-") { format!("{sg}:in-the-base-schedule") } else { sg.clone() };
+                        // with three or more receivers the same symptom may need few deviations (one
+                        // finding) or many (another one): the class is part of the signature
+                        let receivers: BTreeSet<usize> = sc.env_signals.iter().map(|x| x.1).collect();
+                        let devs = choices.iter().filter(|c| **c != 0).count();
+                        let sg = if receivers.len() >= 3 && devs > 3 && sg.starts_with("C10:sim:signal-") { format!("{sg}:beyond-3-deviations") } else { sg };
                         if local.violations.iter().filter(|v| v.0 == sg).count() < 2 {
                             local.violations.push((sg, d.clone(), choices.clone()));
                         }
